@@ -11,7 +11,8 @@
     "model satisfies monitor" - plus the named consequences of the property statement. *)
 From Coq Require Import List NArith String Bool.
 From GV Require Import Base.Ints Model.Stores Model.StoresEq Monitors.C16m Gen.StoreLocks
-  Proofs.StoreLocks Proofs.Stores Proofs.StoresVR Proofs.StoresAction.
+  Proofs.StoreLocks Proofs.Stores Proofs.StoresVR Proofs.StoresAction Proofs.StoresLin.
+From Coq Require Import Permutation.
 Import ListNotations.
 Local Open Scope N_scope.
 
@@ -217,3 +218,14 @@ Theorem C16_action_single_prevote : forall ops1 ops2 k h r bh sig k' bh' sig',
   astep s (ASavePV k' h r bh' sig') = (s, AErr (EDoubleAction KPrevote)).
 Proof. exact action_single_prevote. Qed.
 Print Assumptions C16_action_single_prevote.
+
+(** * Soundness of the linearizability monitor used on recorded concurrent histories
+    (any store: [step], [out_eqb] are parameters): acceptance exhibits a sequential
+    witness - a permutation of the history that respects real-time order and on which
+    the model returns exactly the recorded results. *)
+Theorem C16_linearizability_monitor_sound :
+  forall (St Op Out : Type) (step : St -> Op -> St * Out) (out_eqb : Out -> Out -> bool) s h,
+  linearizable step out_eqb s h = true ->
+  exists l, Permutation l h /\ rt_ok l = true /\ seq_ok step out_eqb s l.
+Proof. exact (fun St Op Out step out_eqb => linearizable_sound step out_eqb). Qed.
+Print Assumptions C16_linearizability_monitor_sound.
